@@ -1863,6 +1863,7 @@ func (c *DnsController) evictIdleDnsForwarders(now time.Time) {
 	nowNano := now.UnixNano()
 	idleNano := c.dnsForwarderIdleTTL.Nanoseconds()
 	var toClose []DnsForwarder
+	var toRetire []*cachedDnsForwarder
 
 	c.dnsForwarderCache.Range(func(key, value any) bool {
 		k, ok := key.(dnsForwarderKey)
@@ -1892,10 +1893,20 @@ func (c *DnsController) evictIdleDnsForwarders(now time.Time) {
 		}
 
 		if c.dnsForwarderCache.CompareAndDelete(k, entry) {
-			toClose = append(toClose, entry.forwarder)
+			toRetire = append(toRetire, entry)
 		}
 		return true
 	})
+
+	// Retire instead of closing directly: a query that loaded the entry just
+	// before it was removed is then refused by beginUse (or, if it is already
+	// in flight, the close waits for it in endUse), and the forwarder is
+	// closed exactly once through closeNow.
+	for _, entry := range toRetire {
+		if err := entry.retire(); err != nil && c.log != nil {
+			c.log.WithError(err).Debugln("failed to close idle dns forwarder")
+		}
+	}
 
 	for _, forwarder := range toClose {
 		if forwarder == nil {
